@@ -1341,11 +1341,11 @@ impl RepoSim {
             let root_id = tx.repo().store().root_commit_id().clone();
             let non_root: Vec<&Commit> = vis.iter().filter(|c| *c.id() != root_id).collect();
             // 0 new commit, 1 rewrite(describe), 2 abandon, 3 bookmark, 4 tag, 5 wc, 6 divergent rewrite,
-            // 7 squash (two predecessors), 8 restore an older operation's view, 9 split, 10 diamond
+            // 7 squash (two predecessors), 8 restore an older operation's view, 9 split, 10 diamond, 11 view fuzz
             let mkind = if shared.cfg.heads_focus {
                 0
             } else {
-                d.weighted(&[5, 3, 2, 4, 1, 2, 1, 1, usize::from(shared.cfg.restores && m == 0), 1, 1])
+                d.weighted(&[5, 3, 2, 4, 1, 2, 1, 1, usize::from(shared.cfg.restores && m == 0), 1, 1, 1])
             };
             match mkind {
                 8 => {
@@ -1371,6 +1371,58 @@ impl RepoSim {
                     sim.note("note:mut", format!("restore view of op {}", short(&id)));
                     rec.restore = true;
                     break;
+                }
+                11 if !vis.is_empty() => {
+                    // view fuzz (C16): remote bookmarks / remote tags in both
+                    // tracking states with normal, absent and conflicted
+                    // targets, git refs, git head
+                    use jj_lib::op_store::RemoteRef;
+                    use jj_lib::op_store::RemoteRefState;
+                    use jj_lib::ref_name::RemoteRefSymbol;
+                    let pick_target = |d: &Draw<'_>| -> RefTarget {
+                        match d.weighted(&[5, 1, 2]) {
+                            1 => RefTarget::absent(),
+                            2 => {
+                                let a = vis[d.n(vis.len())].id().clone();
+                                let b = vis[d.n(vis.len())].id().clone();
+                                let c = vis[d.n(vis.len())].id().clone();
+                                if d.chance(1, 2) {
+                                    RefTarget::from_legacy_form([a], [b, c])
+                                } else {
+                                    // absent side / absent base
+                                    RefTarget::from_merge(jj_lib::merge::Merge::from_vec(vec![Some(a), None, Some(b)]))
+                                }
+                            }
+                            _ => RefTarget::normal(vis[d.n(vis.len())].id().clone()),
+                        }
+                    };
+                    let name: RefNameBuf = format!("b{}", d.n(shared.cfg.n_bookmarks)).as_str().into();
+                    let remote: jj_lib::ref_name::RemoteNameBuf = ["origin", "up", "git"][d.n(3)].into();
+                    match d.n(4) {
+                        0 => {
+                            let target = pick_target(d);
+                            let state = if d.chance(1, 2) { RemoteRefState::Tracked } else { RemoteRefState::New };
+                            tx.repo_mut().set_remote_bookmark(RemoteRefSymbol { name: &name, remote: &remote }, RemoteRef { target, state });
+                        }
+                        1 => {
+                            let target = pick_target(d);
+                            let state = if d.chance(1, 2) { RemoteRefState::Tracked } else { RemoteRefState::New };
+                            let tname: RefNameBuf = format!("t{}", d.n(shared.cfg.n_bookmarks)).as_str().into();
+                            tx.repo_mut().set_remote_tag(RemoteRefSymbol { name: &tname, remote: &remote }, RemoteRef { target, state });
+                        }
+                        2 => {
+                            let target = pick_target(d);
+                            let gname: jj_lib::ref_name::GitRefNameBuf = format!("refs/heads/g{}", d.n(3)).as_str().into();
+                            tx.repo_mut().set_git_ref_target(&gname, target);
+                        }
+                        _ => {
+                            let target = pick_target(d);
+                            let wsn: WorkspaceNameBuf = format!("ws{}", d.n(2)).as_str().into();
+                            tx.repo_mut().set_git_head_target(&wsn, target);
+                        }
+                    }
+                    sim.note("note:mut", "view fuzz (remote ref / git ref / git head)".to_string());
+                    shared.model.lock().unwrap().probe("view_fuzz_mutation");
                 }
                 10 if !vis.is_empty() => {
                     // diamond: two siblings edit one line each of the same
@@ -2296,6 +2348,46 @@ impl RepoSim {
             check_files_queries_c22(shared, &repo);
         }
         self.check_c46(shared, &repo, &reach);
+        self.check_c16_population(shared);
+    }
+
+    /// C16 over the population of a run: the id is a function of the value
+    /// and different values never share an id.
+    fn check_c16_population(&self, shared: &Arc<Shared>) {
+        let mut model = shared.model.lock().unwrap();
+        let views = model.written_views.clone();
+        let ops = model.written_ops.clone();
+        for (i, (id_a, a)) in views.iter().enumerate() {
+            for (id_b, b) in views.iter().skip(i + 1) {
+                if (id_a == id_b) != (a == b) {
+                    model.violate(
+                        "C16",
+                        "view_id_not_content_address",
+                        "reposim:c16:view_id_not_content_address".into(),
+                        format!("views {} and {}: ids equal = {}, values equal = {}", short(id_a), short(id_b), id_a == id_b, a == b),
+                        0,
+                    );
+                    return;
+                }
+            }
+        }
+        for (i, (id_a, a)) in ops.iter().enumerate() {
+            for (id_b, b) in ops.iter().skip(i + 1) {
+                if (id_a == id_b) != (a == b) {
+                    model.violate(
+                        "C16",
+                        "operation_id_not_content_address",
+                        "reposim:c16:operation_id_not_content_address".into(),
+                        format!("operations {} and {}: ids equal = {}, values equal = {}", short(id_a), short(id_b), id_a == id_b, a == b),
+                        0,
+                    );
+                    return;
+                }
+            }
+        }
+        if views.len() >= 2 {
+            model.probe("c16_population_checked");
+        }
     }
 
     /// C46: walking a visible commit's evolution terminates, lists every
